@@ -93,7 +93,7 @@ func httpDo(client *http.Client, base string, q rawReq) (engResp, error) {
 
 // concPrograms builds the clients' programs: reads and writes over a few planning units, so that some pairs commute
 // (different planning units, reads) and some conflict (same planning unit, whole-set writes, attribute patches).
-func concPrograms(r *Rng, sc *engScenario, nClients int) [][]rawReq {
+func concPrograms(r *Rng, sc *engScenario, nClients int, labels []string) [][]rawReq {
 	pusWithActs := []uint64{}
 	for _, pu := range sc.pus {
 		if len(sc.typesAt(pu)) > 0 {
@@ -106,7 +106,13 @@ func concPrograms(r *Rng, sc *engScenario, nClients int) [][]rawReq {
 	}
 	progs := make([][]rawReq, nClients)
 	total := 0
+	// burst: every client first asks for a different, not yet pooled solution (all of them arrive at the gate together)
+	burst := len(labels) > 0 && r.Chance(0.5)
 	for cl := 0; cl < nClients; cl++ {
+		if burst && total < 11 {
+			total++
+			progs[cl] = append(progs[cl], rawReq{method: "GET", path: pSolutions + "/" + labels[cl%len(labels)]})
+		}
 		n := 1 + r.Intn(2)
 		if nClients <= 3 {
 			n = 1 + r.Intn(3)
@@ -114,6 +120,11 @@ func concPrograms(r *Rng, sc *engScenario, nClients int) [][]rawReq {
 		for j := 0; j < n && total < 11; j++ {
 			total++
 			var q rawReq
+			if len(labels) > 0 && r.Chance(0.3) {
+				// a pooled solution is built on its first GET: reads that write shared engine state
+				progs[cl] = append(progs[cl], rawReq{method: "GET", path: pSolutions + "/" + labels[r.Intn(len(labels))]})
+				continue
+			}
 			switch d := r.Intn(100); {
 			case d < 34: // per-subcatchment write on a hot planning unit
 				pu := hot[r.Intn(len(hot))]
@@ -297,6 +308,22 @@ func suiteEngineConcChild(c *Ctx) {
 		}
 		setup = append(setup, rawReq{method: "PATCH", path: pModel, ctype: ctJson, body: []byte(fmt.Sprintf(`[{"Name":"Encoding","Value":%q}]`, engEncode(start)))})
 
+		// every other round: a solution summary too, whose members the clients then ask for concurrently
+		var labels []string
+		if r.Chance(0.5) {
+			nSol := 3 + r.Intn(4)
+			rows := make([][]bool, nSol)
+			for k := range rows {
+				rows[k] = make([]bool, sc.n())
+				for i := range rows[k] {
+					rows[k][i] = r.Chance(0.5)
+				}
+				labels = append(labels, fmt.Sprintf("%d-of-%d", k+1, nSol))
+			}
+			labels = append(labels, "As-Is")
+			setup = append(setup, rawReq{method: "POST", path: pSolutions, ctype: ctCsv, body: validSolutionsCsv(sc, rows, -1)})
+		}
+
 		e := newEng()
 		srv := httptest.NewServer(e.mux)
 		round := concRound{Scenario: string(scenBody)}
@@ -317,7 +344,7 @@ func suiteEngineConcChild(c *Ctx) {
 			continue
 		}
 		nClients := 2 + r.Intn(7)
-		progs := concPrograms(r, sc, nClients)
+		progs := concPrograms(r, sc, nClients, labels)
 		var mu sync.Mutex
 		var wg sync.WaitGroup
 		type rawAnswer struct {
